@@ -73,15 +73,17 @@ Check_GEN(r) ==
       perMsg(k) ==
         LET got == FromGo(r.msgs[k].def)
             m == want[k]
-        IN << <<"message_id", got.id = m.id>>,
-              <<"message_name", got.name = m.name>>,
-              <<"fields_mean_the_xml_fields", got.fields = m.fields>>,
-              <<"crc_extra", r.msgs[k].crc = CrcExtra(m)>>,
-              <<"size_base", r.msgs[k].size_v1 = SizeBase(m)>>,
-              <<"size_ext", r.msgs[k].size_v2 = SizeExt(m)>>,
-              <<"encodes_like_the_definition",
-                   \A i \in 1..Len(r.msgs[k].probes) :
-                      r.msgs[k].probes[i].out = Encode(m, r.msgs[k].probes[i].vals, r.msgs[k].probes[i].v2)>> >>
+        IN IF got.fields # m.fields \/ got.id # m.id \/ got.name # m.name
+           THEN \* the generated struct does not mean the XML message: layout clauses would compare apples and oranges
+                << <<"message_id", got.id = m.id>>,
+                   <<"message_name", got.name = m.name>>,
+                   <<"fields_mean_the_xml_fields", got.fields = m.fields>> >>
+           ELSE << <<"crc_extra", r.msgs[k].crc = CrcExtra(m)>>,
+                   <<"size_base", r.msgs[k].size_v1 = SizeBase(m)>>,
+                   <<"size_ext", r.msgs[k].size_v2 = SizeExt(m)>>,
+                   <<"encodes_like_the_definition",
+                        \A i \in 1..Len(r.msgs[k].probes) :
+                           r.msgs[k].probes[i].out = Encode(m, r.msgs[k].probes[i].vals, r.msgs[k].probes[i].v2)>> >>
   IN IF ~Expressible(doc)
      THEN Failed_(<< <<"inexpressible_definition_reported", r.gen_err>> >>)
      ELSE Failed_(<< <<"generator_accepts_valid_xml", ~r.gen_err>>,
